@@ -22,7 +22,7 @@ def run(ctx):
     binp = cc.build(ctx)
     k, reg = cc.consts(ctx, binp)
     names = cc.schema_types(ctx, k)
-    cc.mc_codec(ctx, k)
+    cc.mc_codec(ctx, k, part="mutants")
     if ctx.replay:
         lines = vf.read_lines(ctx.replay)
         casep = ctx.tmp + "/cases.ndjson"
